@@ -8,7 +8,11 @@ import ast
 
 
 class Undecidable(Exception):
-    pass
+    """The expression has no value on this element of the domain (an index out of range, int() of a letter, ...)."""
+
+
+class Unsupported(Undecidable):
+    """The expression uses something the evaluator does not model (unknown call, free name, node kind): says nothing about the code."""
 
 
 SAFE_CALLS = {'int': int, 'str': str, 'len': len, 'sum': sum, 'divmod': divmod, 'tuple': tuple, 'reversed': reversed,
@@ -27,11 +31,15 @@ def ev(node, env, hooks=None):
     if isinstance(node, ast.Name):
         if node.id in env:
             return env[node.id]
-        raise Undecidable('free name %s' % node.id)
+        raise Unsupported('free name %s' % node.id)
     if isinstance(node, ast.Tuple):
         return tuple(E(x) for x in node.elts)
     if isinstance(node, ast.List):
         return [E(x) for x in node.elts]
+    if isinstance(node, ast.Dict) and all(k is not None for k in node.keys):
+        return {E(k): E(v) for k, v in zip(node.keys, node.values)}
+    if isinstance(node, ast.Set):
+        return {E(x) for x in node.elts}
     if isinstance(node, ast.BinOp):
         a, b = E(node.left), E(node.right)
         op = type(node.op)
@@ -50,7 +58,7 @@ def ev(node, env, hooks=None):
                 return a ** b
         except (TypeError, ZeroDivisionError, ValueError) as e:
             raise Undecidable('arithmetic fails: %s' % e)
-        raise Undecidable('operator %s' % op.__name__)
+        raise Unsupported('operator %s' % op.__name__)
     if isinstance(node, ast.UnaryOp):
         v = E(node.operand)
         if isinstance(node.op, ast.USub):
@@ -118,13 +126,13 @@ def ev(node, env, hooks=None):
         return out
     if isinstance(node, ast.Call):
         if node.keywords and not (isinstance(node.func, ast.Name) and node.func.id in hooks):
-            raise Undecidable('keyword call')
+            raise Unsupported('keyword call')
         if isinstance(node.func, ast.Name):
             if node.func.id in hooks:
                 return hooks[node.func.id](*[E(a) for a in node.args], **{k.arg: E(k.value) for k in node.keywords})
             f = SAFE_CALLS.get(node.func.id)
             if f is None:
-                raise Undecidable('call of %s' % node.func.id)
+                raise Unsupported('call of %s' % node.func.id)
             args = [E(a) for a in node.args]
             try:
                 r = f(*args)
@@ -145,6 +153,17 @@ def ev(node, env, hooks=None):
             if len(args) != 2 or args[0] not in ('NFC', 'NFD', 'NFKC', 'NFKD') or not isinstance(args[1], str):
                 raise Undecidable('unicodedata.normalize arguments')
             return _u.normalize(*args)
+        if isinstance(node.func, ast.Attribute) and node.func.attr in ('match', 'search', 'fullmatch') and not node.keywords:
+            import re as _re
+            try:
+                obj = E(node.func.value)
+            except Unsupported:
+                obj = None
+            if isinstance(obj, _re.Pattern):
+                args = [E(a) for a in node.args]
+                if len(args) != 1 or not isinstance(args[0], str):
+                    raise Undecidable('pattern.%s arguments' % node.func.attr)
+                return getattr(obj, node.func.attr)(args[0])
         if isinstance(node.func, ast.Attribute) and node.func.attr in ('group', 'groups'):
             obj = E(node.func.value)
             import re as _re
@@ -165,5 +184,81 @@ def ev(node, env, hooks=None):
                 return getattr(obj, node.func.attr)(*args)
             except (ValueError, TypeError, IndexError) as e:
                 raise Undecidable('.%s() fails: %s' % (node.func.attr, type(e).__name__))
-        raise Undecidable('call')
-    raise Undecidable(type(node).__name__)
+        raise Unsupported('call')
+    raise Unsupported(type(node).__name__)
+
+
+def compiled_patterns(tree):
+    """module-level `NAME = re.compile(<literal pattern>[, <literal flags expression>])` as real pattern objects (constants of the module)."""
+    import re as _re
+    out = {}
+    for st in tree.body:
+        if isinstance(st, ast.Assign) and len(st.targets) == 1 and isinstance(st.targets[0], ast.Name) and isinstance(st.value, ast.Call) \
+                and ast.unparse(st.value.func) == 're.compile' and st.value.args and not st.value.keywords:
+            try:
+                pat = ast.literal_eval(st.value.args[0])
+                flags = 0
+                if len(st.value.args) > 1:
+                    flags = eval(compile(ast.Expression(st.value.args[1]), '<flags>', 'eval'), {'re': _re, '__builtins__': {}})
+                out[st.targets[0].id] = _re.compile(pat, flags)
+            except Exception:
+                continue
+    return out
+
+
+class _Return(Exception):
+    def __init__(self, value):
+        self.value = value
+
+
+def run(stmts, env, hooks=None, fuel=20000):
+    """Straight-line / branching / bounded-loop bodies of small pure helpers: Assign, AugAssign, If, For over an evaluated
+    sequence, Return, docstrings.  Returns the returned value (None when the body falls off its end); env is updated."""
+    state = {'fuel': fuel}
+
+    def assign(target, value):
+        if isinstance(target, ast.Name):
+            env[target.id] = value
+        elif isinstance(target, (ast.Tuple, ast.List)) and all(isinstance(t, ast.Name) for t in target.elts):
+            try:
+                vals = tuple(value)
+            except TypeError:
+                raise Undecidable('unpacking a non-sequence')
+            if len(vals) != len(target.elts):
+                raise Undecidable('unpacking %d values into %d names' % (len(vals), len(target.elts)))
+            for t, v in zip(target.elts, vals):
+                env[t.id] = v
+        else:
+            raise Unsupported('assignment target %s' % type(target).__name__)
+
+    def block(body):
+        for st in body:
+            state['fuel'] -= 1
+            if state['fuel'] < 0:
+                raise Unsupported('evaluation budget exhausted')
+            if isinstance(st, ast.Expr) and isinstance(st.value, ast.Constant):
+                continue
+            if isinstance(st, ast.Assign):
+                v = ev(st.value, env, hooks)
+                for t in st.targets:
+                    assign(t, v)
+            elif isinstance(st, ast.AugAssign) and isinstance(st.target, ast.Name):
+                v = ev(ast.BinOp(left=ast.Name(id=st.target.id, ctx=ast.Load()), op=st.op, right=st.value), env, hooks)
+                env[st.target.id] = v
+            elif isinstance(st, ast.If):
+                block(st.body if ev(st.test, env, hooks) else st.orelse)
+            elif isinstance(st, ast.For) and not st.orelse:
+                for x in ev(st.iter, env, hooks):
+                    assign(st.target, x)
+                    block(st.body)
+            elif isinstance(st, ast.Return):
+                raise _Return(ev(st.value, env, hooks) if st.value is not None else None)
+            elif isinstance(st, ast.Pass):
+                continue
+            else:
+                raise Unsupported('statement %s' % type(st).__name__)
+    try:
+        block(stmts)
+    except _Return as r:
+        return r.value
+    return None
